@@ -504,6 +504,11 @@ def r8_utc_timestamp(ctx, rule='C14.R8'):
 
 
 def run(ctx):
+    from ..report import Relabel
+    from .c01 import r3b_chunk_record_fresh, r3_order_key
+
+    r3b_chunk_record_fresh(Relabel(ctx, 'C14.R2'), rule='C14.R2')
+    r3_order_key(Relabel(ctx, 'C14.R2'))
     r8_utc_timestamp(ctx)
     r1_derivations(ctx)
     r2_key_tables(ctx)
